@@ -294,7 +294,7 @@ type RunResult struct {
 	Steps      int            `json:"steps"`
 	Ops        int            `json:"ops"`
 	Checks     int            `json:"checks"`
-	Counters   map[string]int `json:"counters"`
+	Counters   counters       `json:"counters"`
 	Violations []Violation    `json:"violations,omitempty"`
 	Distinct   map[string][]string `json:"distinct,omitempty"` // measure -> hashes seen
 	Nontrivial int            `json:"nontrivial"`
